@@ -4,7 +4,7 @@ listings alive on one reader, read in any order; every next() and - at the end o
 the reader's tables and metadata attributes are validated by Readers_Val in TLC."""
 import io
 
-from .container import FileGen, encode_file, independent_decode, project_item, meta_of, tables, public
+from .container import FileGen, encode_file, independent_decode, project_item, meta_of, tables, public, reader_of
 from .tlc import validate_observations, run_tlc
 
 VAL_CONSTS = 'CONSTANT RVariant = "ok"\n'
@@ -47,12 +47,14 @@ def run_session(rnd, versions, nreaders=4, force_logs=False):
         r = rnd.randrange(len(objs))
         fi = rnd.randrange(len(files))
         try:
-            it = objs[r].parse(io.BytesIO(blobs[fi]))
+            it = objs[r].parse(reader_of(rnd, blobs[fi]))
         except Exception as ex:
             acts.append({'op': 'open', 'r': r + 1, 'f': fi + 1, 'err': type(ex).__name__})
             return None
         gens.append([it, r, fi, True])
-        acts.append({'op': 'open', 'r': r + 1, 'f': fi + 1})
+        # the table pair of EVERY reader object right after the request was made (nothing has been read yet)
+        acts.append({'op': 'open', 'r': r + 1, 'f': fi + 1,
+                     'tabs': [list(tables(o_.threads_pids, o_.pids_names)) for o_ in objs]})
         script.append('open #%d reader %d (%s) file %d (v%d)' % (len(gens), r + 1, 'own tables' if specs[r]['own'] else 'caller pair',
                                                                   fi + 1, files[fi]['ver']))
         return len(gens) - 1
